@@ -153,6 +153,8 @@ def run(tier, seed, replay=None):
                 if extra:
                     r.update(extra)
                 rep.violation(f"[{cfg}] {msg[:500]}", r, tags={tag + ":" + cfg})
+        from . import corpus
+        stats[("both", "corpus")] = str(corpus.run(rep, PROP, tier))
     except vlib.BuildFailure as e:
         rep.violation("the solver does not build in a supported configuration", {"kind": "build", "theorem_or_correspondence": "cmake build of /repo", "log": str(e)}, no_input=True)
     rep.cov.update({
